@@ -373,7 +373,8 @@ def trace_rvalue(f, rv, depth, pt=None):
     if r == "un":
         return O("un", rv["op"], trace_operand(f, rv["o"], depth))
     if r == "discr":
-        return O("discr", trace_place(f, rv["pl"], depth))
+        vs = rv.get("vars")
+        return O("discr", trace_place(f, rv["pl"], depth), tuple((int(a), b) for a, b in vs) if vs else None)
     if r == "agg":
         ops = tuple(trace_operand(f, o, depth) for o in rv["ops"])
         if rv["ak"] == "adt": return O("agg", norm(rv["adt"]), rv["var"], ops)
@@ -402,7 +403,7 @@ def simplify(o):
         if o[2].startswith("Ptr") or o[2].startswith("PointerCoercion") or o[2] == "transmute":
             return simplify(o[1])
         return O("cast", simplify(o[1]), o[2], o[3])
-    if k == "discr": return O("discr", simplify(o[1]))
+    if k == "discr": return O("discr", simplify(o[1]), o[2] if len(o) > 2 else None)
     return o
 
 def field_chain(o):
@@ -1029,7 +1030,7 @@ def edge_atoms(prog, f, bb, label):
         elif len(vals) == 1: truth = (vals[0] == 0)
         if truth is not None and neg: truth = not truth
     if o[0] == "discr":
-        names = variant_names(prog, f, o[1])
+        names = dict(o[2]) if len(o) > 2 and o[2] else variant_names(prog, f, o[1])
         if names:
             if eq:
                 nm = names.get(vals[0])
@@ -1078,3 +1079,120 @@ def is_call_result(rx, on=None, f=None):
     return p
 
 def any_origin(o): return True
+
+# ------------------------------------------------------------------------------------------------
+# correlated-branch path exploration (finite abstract execution)
+
+def origin_def_points(f, o, acc=None, depth=0):
+    """points whose execution (re)defines a value the origin depends on"""
+    if acc is None: acc = set()
+    if depth > 12: return acc
+    k = o[0]
+    if k == "call":
+        acc.add(f.term_point(o[1]))
+        t = f.term(o[1])
+        for a in t.get("args", []):
+            origin_def_points(f, simplify(trace_operand(f, a)), acc, depth + 1)
+    elif k in ("local", "phi"):
+        for (pt, kind, payload) in f.defs().get(o[1], []):
+            acc.add(pt)
+        if k == "phi":
+            for a in o[2]:
+                origin_def_points(f, a, acc, depth + 1)
+    elif k in ("field", "deref", "ref", "downcast", "clone", "discr", "un", "cast", "index"):
+        sub = o[2] if k == "un" else o[1]
+        origin_def_points(f, sub, acc, depth + 1)
+    elif k == "bin":
+        origin_def_points(f, o[2], acc, depth + 1); origin_def_points(f, o[3], acc, depth + 1)
+    return acc
+
+class PathExplorer:
+    """Explores (point, branch-constraints, automaton state) triples. Branch constraints make
+    switches on the same (not redefined) value take consistent directions, which removes the
+    infeasible paths a path-insensitive search would report.
+    step(pt, node, astate) -> astate' (or None to stop exploring this path)
+    on_exit(pt, astate, trail) is called at every Return reached."""
+    def __init__(self, prog, f, max_states=60000):
+        self.prog = prog; self.f = f; self.max_states = max_states
+        self._sw = {}
+    def _switch_key(self, bb):
+        if bb not in self._sw:
+            o = switch_info(self.f, bb)
+            # look through Not
+            neg = False
+            while o[0] == "un" and o[1] == "Not":
+                neg = not neg; o = simplify(o[2])
+            self._sw[bb] = (fmt_origin(o), frozenset(origin_def_points(self.f, o)), neg, o)
+        return self._sw[bb]
+    def run(self, start, astate0, step, on_exit, edge_hook=None):
+        f = self.f
+        seen = set()
+        work = [(start, frozenset(), astate0, ())]
+        n = 0
+        while work:
+            pt, cons, ast, trail = work.pop()
+            key = (pt, cons, ast)
+            if key in seen: continue
+            seen.add(key); n += 1
+            if n > self.max_states:
+                return False
+            node = f.node(pt)
+            # invalidate constraints whose origin is redefined here
+            if cons:
+                cons = frozenset(c for c in cons if pt not in c[1])
+            ast2 = step(pt, node, ast)
+            if ast2 is None:
+                continue
+            # assignment-driven facts: `_l = Enum::Variant{..}` fixes discriminant(_l) until _l is redefined
+            if not f.is_term(pt) and node["s"] == "=" and not node["l"]["p"]:
+                rv = node["rv"]
+                l = node["l"]["l"]
+                idx = None
+                if rv["r"] == "agg" and rv["ak"] == "adt":
+                    a = norm(rv["adt"])
+                    names = STD_VARIANTS.get(a)
+                    if names is None and a in self.prog.adts and self.prog.adts[a]["kind"] == "Enum":
+                        names = {i: v["n"] for i, v in enumerate(self.prog.adts[a]["variants"])}
+                    if names:
+                        for i, nme in names.items():
+                            if nme == rv["var"]: idx = i
+                if idx is not None:
+                    lo = simplify(trace_local(f, l))
+                    if lo[0] in ("phi", "local"):
+                        skey = fmt_origin(O("discr", lo))
+                        defs = frozenset(p for (p, k2, pl) in f.defs().get(l, []) if p != pt)
+                        cons = frozenset([c for c in cons if c[0] != skey] + [(skey, defs, True, (idx,))])
+            if f.is_term(pt):
+                k = node["t"]
+                if k == "ret":
+                    on_exit(pt, ast2, trail); continue
+                if k == "sw":
+                    skey, defs, neg, o = self._switch_key(pt.bb)
+                    cur = None
+                    for c in cons:
+                        if c[0] == skey: cur = c
+                    for (tb, lab) in f.term_succs(pt.bb):
+                        eq = lab[0] == "sw"
+                        vals = (lab[1],) if eq else tuple(lab[1])
+                        # feasibility
+                        if cur is not None:
+                            ceq, cvals = cur[2], cur[3]
+                            if ceq:
+                                if eq and vals[0] != cvals[0]: continue
+                                if not eq and cvals[0] in vals: continue
+                            else:
+                                if eq and vals[0] in cvals: continue
+                        if eq: newc = (skey, defs, True, vals)
+                        else:
+                            merged = tuple(sorted(set(vals) | (set(cur[3]) if cur is not None and not cur[2] else set())))
+                            newc = (skey, defs, False, merged) if (cur is None or not cur[2]) else cur
+                        cons2 = frozenset([c for c in cons if c[0] != skey] + [newc])
+                        ast3 = ast2
+                        if edge_hook is not None:
+                            ast3 = edge_hook(pt, tb, lab, ast2)
+                            if ast3 is None: continue
+                        work.append((Point(tb, 0), cons2, ast3, trail + (pt.bb,)))
+                    continue
+            for q, lab in f.succs(pt):
+                work.append((q, cons, ast2, trail if not f.is_term(pt) else trail + (pt.bb,)))
+        return True
